@@ -548,6 +548,63 @@ def r14g(ctx, rep, rule="R14g", only=None, skip=("marwood::vm::builtin::string::
                              "(e.g. (1 2 . 3) is treated as (1 2))" % f.short, [t["loc"]])
                 else:
                     rep.ok(rule, key, "%s: after the cdr walk the terminator is tested with is_nil before any Ok" % f.short, [t["loc"]])
+    # the same walk written as a match on the cursor: `while let VCell::Pair(_, cdr) = cur { ..; cur = heap.get(cdr) }`
+    for p, f in sorted(facts.fns.items()):
+        if not p.startswith("marwood::vm::builtin::") or "::{closure" in p:
+            continue
+        if (only and not p.startswith(only)) or (not only and p.startswith(skip)):
+            continue
+        k2 = 0
+        seen_sw = set()
+        for src, h in f.back_edges():
+            body = (f.reach_from(h) & f.reach_back(src)) | {h, src}
+            for sw in disc_switches(facts, f, VCELL):
+                if sw["bb"] not in body or sw["bb"] in seen_sw or sw["arms"].get("Pair") not in body or sw["place"]["p"]:
+                    continue
+                cur_l = sw["place"]["l"]
+                redef_in_body = []
+                for d in f.defs().get(cur_l, []):
+                    if d[0] not in body or d[2] == "partial":
+                        continue
+                    if d[2] == "call" and callee(d[3]) == HEAP + "get":
+                        redef_in_body.append(d)
+                    elif d[2] == "assign" and d[3]["rv"]["k"] == "use":
+                        o = f.origin(d[3]["rv"]["a"])
+                        if o[0] == "call" and callee(o[1]) == HEAP + "get":
+                            redef_in_body.append(d)
+                if not redef_in_body:
+                    continue
+                seen_sw.add(sw["bb"])
+                n += 1
+                k2 += 1
+                exits = {tg for v, tg in sw["arms"].items() if v not in ("Pair", "Nil")} | {sw["otherwise"]}
+                if sw["arms"].get("Nil") == sw["otherwise"]:
+                    exits.add(sw["otherwise"])
+                exits.discard(sw["arms"].get("Pair"))
+                nil_blocks = {bb3 for bb3, t3 in f.calls() if (callee(t3) or "").endswith("VCell::is_nil")
+                              and (f.origin(t3["args"][0])[0] == "local" and f.origin(t3["args"][0])[1] == cur_l)}
+                nil_blocks |= {s2["bb"] for s2 in disc_switches(facts, f, VCELL) if s2["bb"] != sw["bb"] and not s2["place"]["p"]
+                               and s2["place"]["l"] == cur_l and "Nil" in s2["arms"] and s2["arms"]["Nil"] != s2["otherwise"]}
+                redefs = {d[0] for d in f.defs().get(cur_l, []) if d[2] != "partial"}
+                reach, stack_ = set(), list(exits)
+                while stack_:
+                    b0 = stack_.pop()
+                    if b0 in reach or b0 in nil_blocks:
+                        continue
+                    reach.add(b0)
+                    if b0 in redefs:
+                        continue
+                    stack_.extend(f.succ[b0])
+                oks = [bb3 for bb3 in reach for st in f.blocks[bb3]["stmts"] if st["lhs"]["l"] == 0 and not st["lhs"]["p"]
+                       and st["rv"]["k"] == "agg" and st["rv"].get("variant") == "Ok"]
+                nm = f.short.rsplit("::", 1)[-1]
+                key = "%s|%s|match-walk#%d" % (rule, nm, k2)
+                if oks:
+                    rep.fail(rule, key, "%s walks a list with a match on VCell::Pair and, once the cursor is no longer a pair, can return "
+                             "Ok without testing that it is the empty list: the tail of an improper list is dropped silently "
+                             "(e.g. (1 2 . 3) is treated as (1 2))" % f.short, [sw["term"].get("loc") or f.span])
+                else:
+                    rep.ok(rule, key, "%s: after the match-driven cdr walk the terminator is tested before any Ok" % f.short, [f.span])
     rep.floor(rule, "cdr-walking loops with an is_pair exit in the builtins%s" % (" (%s)" % only if only else ""), n, floor)
 
 
@@ -688,6 +745,157 @@ def r14k(ctx, rep, rule="R14k"):
             rep.ok(rule, key, "%s compares every component through Vm::equal" % nm, [f.span])
 
 
+FRESH_LIST = {"marwood::vm::builtin::list::reverse": "reverse"}
+
+
+def _result_leaves(f, op, seen=None, depth=10):
+    """where the value of an operand can come from, through copies, clones and re-definitions: set of
+    ('alloc', bb) | ('const',) | ('operand', bb) | ('cell', bb) | ('other', text)"""
+    from .. import shapes
+    out = set()
+    seen = seen if seen is not None else set()
+    pl = op_place(op)
+    if op_const(op) is not None:
+        return {("const",)}
+    if pl is None or depth < 0:
+        return {("other", "?")}
+    l = pl["l"]
+    if l in seen:
+        return out
+    seen.add(l)
+    if 1 <= l <= f.argc:
+        return {("other", "arg")}
+    for d in f.defs().get(l, []):
+        bb, idx, kind, payload = d
+        if kind == "partial":
+            continue
+        if kind == "call":
+            c = callee(payload) or ""
+            if c in (HEAP + "put", HEAP + "maybe_put", HEAP + "put_cell"):
+                out.add(("alloc", bb))
+            elif c.endswith("Stack::pop") or c.endswith("Stack::get_offset") or c.endswith("Stack::get"):
+                out.add(("operand", bb))
+            elif c == HEAP + "get":
+                out.add(("cell", bb))
+            elif c.endswith("Clone>::clone") or c.endswith("Try>::branch") or c.endswith("::unwrap") or c.endswith("Deref>::deref"):
+                for a in payload["args"][:1]:
+                    out |= _result_leaves(f, a, seen, depth - 1)
+            else:
+                out.add(("other", short_path(c)))
+        else:
+            rv = payload["rv"]
+            if rv["k"] in ("use", "cast"):
+                out |= _result_leaves(f, rv["a"], seen, depth - 1)
+            elif rv["k"] == "ref":
+                out |= _result_leaves(f, {"copy": rv["place"]}, seen, depth - 1)
+            elif rv["k"] == "agg":
+                out.add(("const",) if not rv.get("ops") else ("other", "agg"))
+            else:
+                out.add(("other", rv["k"]))
+    return out
+
+
+def r14l(ctx, rep, rule="R14l"):
+    from .. import shapes
+    facts = ctx["facts"]
+    rep.rule(rule, "a list result that R7RS requires to be newly allocated is not an operand: in `reverse`, every value returned "
+             "with Ok comes from a Heap::put of this call (or is the empty list, returned under an is_nil test) — never the "
+             "operand popped from the stack or a cell read through it. A shortcut that hands back the argument makes the "
+             "result eq? to it, and a later set-car! on the result changes the argument.")
+    n = 0
+    for path, name in sorted(FRESH_LIST.items()):
+        f = need(rep, rule, facts, path)
+        if f is None:
+            continue
+        k = 0
+        for bb, j_, st in f.stmts():
+            rv = st["rv"]
+            if not (st["lhs"]["l"] == 0 and not st["lhs"]["p"] and rv["k"] == "agg" and rv.get("variant") == "Ok" and rv["ops"]):
+                continue
+            k += 1
+            n += 1
+            key = "%s|%s|Ok#%d" % (rule, name, k)
+            leaves = _result_leaves(f, rv["ops"][0])
+            shared = sorted(x[0] for x in leaves if x[0] in ("operand", "cell"))
+            ro = f.origin(rv["ops"][0])
+            nil_guard = False
+            for sbb, cond, taken, t in shapes.dominating_guards(f, bb):
+                co = f.origin(cond)
+                if taken == "else" and co[0] == "call" and (callee(co[1]) or "").endswith("VCell::is_nil"):
+                    ao = f.origin(co[1]["args"][0])
+                    if ao[0] == ro[0] == "local" and ao[1] == ro[1]:
+                        nil_guard = True
+            if shared and not nil_guard:
+                rep.fail(rule, key, "%s can return %s: the result is the argument (or shares its first pair) instead of a newly "
+                         "allocated list, so mutating one mutates the other" % (
+                             name, "the operand it popped" if "operand" in shared else "a cell read through its operand"), [st["loc"]])
+            else:
+                rep.ok(rule, key, "%s returns %s" % (name, "the empty list (under is_nil)" if shared else "a list allocated by this call"), [st["loc"]])
+    rep.floor(rule, "Ok results of procedures that must allocate", n, 2)
+
+
+def r14m(ctx, rep, rule="R14m"):
+    from . import prelude as P
+    rep.rule(rule, "the n-ary list walks of the prelude stop at the shortest list: in `map` and `for-each` the test that ends "
+             "the loop looks at every list (its operand is the whole list-of-lists variable, not one selected element of it). "
+             "A test of the first list only runs past the end of a shorter second list "
+             "(`expected pair`) where R7RS says the walk ends.")
+    try:
+        macros, forms, path = P.load_macros(ctx["root"])
+    except (OSError, IndexError):
+        rep.anchor_lost(rule, "prelude.scm")
+        return
+
+    def show(x):
+        if isinstance(x, list):
+            return "(" + " ".join(show(y) for y in x) + ")"
+        if isinstance(x, tuple):
+            return str(x[1])
+        return str(x)
+
+    tests = {}
+    for name in ("map", "for-each"):
+        d = None
+        for fm in forms:
+            if isinstance(fm, list) and len(fm) >= 3 and fm[0] == "define" and isinstance(fm[1], list) and fm[1] and fm[1][0] == name:
+                d = fm
+        if d is None:
+            rep.anchor_lost(rule, "definition of %s in prelude.scm" % name)
+            continue
+        found = []
+
+        def walk(x, params):
+            if isinstance(x, list) and x:
+                if x[0] == "lambda" and len(x) >= 3 and isinstance(x[1], list):
+                    for y in x[2:]:
+                        walk(y, [str(q) for q in x[1] if isinstance(q, P.Sym)])
+                    return
+                if x[0] == "if" and len(x) >= 3 and params:
+                    found.append((x[1], params))
+                for y in x:
+                    walk(y, params)
+        walk(d[2:], [])
+        if not found:
+            rep.anchor_lost(rule, "loop test of %s" % name)
+            continue
+        test, params = found[0]
+        tests[name] = show(test)
+
+        def whole(x):
+            """does the test pass a loop parameter as a whole operand (not under car/cdr)?"""
+            if isinstance(x, list) and x:
+                if x[0] in ("car", "cdr", "cadr", "cddr", "caar", "list-ref"):
+                    return False
+                return any((isinstance(y, P.Sym) and str(y) in params) or whole(y) for y in x[1:])
+            return False
+        key = "%s|%s|test-sees-every-list" % (rule, name)
+        if whole(test):
+            rep.ok(rule, key, "%s ends its loop on %s, a test over the whole list of lists" % (name, show(test)))
+        else:
+            rep.fail(rule, key, "%s ends its loop on %s, which inspects one selected list only: when another list is shorter the walk "
+                     "runs off its end instead of stopping at the shortest list" % (name, show(test)))
+
+
 def run(ctx, rep):
     r14a(ctx, rep)
     r14b(ctx, rep)
@@ -699,6 +907,8 @@ def run(ctx, rep):
     r14h(ctx, rep)
     r14i(ctx, rep)
     r14k(ctx, rep)
+    r14l(ctx, rep)
+    r14m(ctx, rep)
     from .C15 import fresh_results
     fresh_results(ctx, rep, "R14j", "Vector", "marwood::vm::vcell::VCell::vector", "vector", "vector-set!", 1, 3)
     from . import C06
